@@ -197,7 +197,7 @@ def run(ctx: Ctx) -> int:
         r_ = rows[i]
         if any(c.startswith("MACHINERY") for c in clauses):
             raise MachineryError(f"{r_}")
-        site = r_["stage"] + "/" + r_["cls"] if r_["stage"] else r_["what"].split(" ")[0].split(":")[-1]
+        site = r_["stage"] + "/" + r_["cls"] if r_["stage"] else (("node:" + r_["what"].split(":")[-1]) if r_["what"].startswith("node") else " ".join(r_["what"].split(" ")[:2 if r_["what"].startswith("random") else 1]))
         ctx.violation(f"parse:{clauses[0]}:{r_['exc'] or r_['out']}:{site}", ",".join(clauses), r_,
                       f"{r_['what']} ({r_['mode']}/{r_['layout']}, {r_['len']} bytes): {r_['out']} {r_['exc']} kdf={r_['kdf']} steps={r_['steps']}")
     from collections import Counter
